@@ -367,7 +367,7 @@ impl Check for C20 {
         vec!["tables_compared", "errors_expected_and_reported", "disk:BitFlip", "disk:ShortRead", "panic", "ckh_tables_checked"]
     }
     fn max_steps(&self) -> usize { 20_000_000 }
-    fn runs(&self, tier: &str) -> u64 { if tier == "quick" { 3_000 } else { 600_000 } }
+    fn runs(&self, tier: &str) -> u64 { if tier == "quick" { 30_000 } else { 2_000_000 } }
     fn gen_case(&self, rng: &mut Rng, idx: u64, _tier: &str) -> Value { gen_case_inner(rng, idx) }
     fn tune_cfg(&self, _rng: &mut Rng, case: &Value, cfg: &mut SimCfg) {
         cfg.run.panic_faults = case["panic_faults"].as_array().unwrap().iter().map(|f| rt::PanicFault { site: f[0].as_str().unwrap().to_string(), nth: f[1].as_u64().unwrap() }).collect();
